@@ -208,6 +208,169 @@ def check_c08(files, root, repo, version):
     return fails
 
 
+# ------------------------------------------------------------------------------------------- C18 (rendered overview and findings)
+def render(fn, *args, **kw):
+    import io
+    from rich.console import Console
+    buf = io.StringIO()
+    con = Console(file=buf, width=400, color_system=None, force_terminal=False, emoji=False, highlight=False, legacy_windows=False)
+    fn(con, *args, **kw) if kw.pop("_console_first", True) else fn(*args, con, **kw)
+    return buf.getvalue()
+
+
+def totals_of(files):
+    """{language: [files, functions, loc, hard, unmaintainable]} computed from the inputs"""
+    t = {}
+    for _p, lang, ms in files:
+        r = t.setdefault(lang, [0, 0, 0, 0, 0])
+        r[0] += 1
+        r[1] += len(ms)
+        r[2] += sum(m.value for m in ms)
+        r[3] += sum(1 for m in ms if cat(m.value) == 2)
+        r[4] += sum(1 for m in ms if cat(m.value) == 3)
+    return t
+
+
+def cell(cur, prev):
+    return f"{cur}" if prev is None or cur == prev else f"{cur} ({cur - prev:+d})"
+
+
+def parse_md_rows(text):
+    rows = {}
+    order = []
+    for line in text.splitlines():
+        if "|" not in line or "---" in line or "**Language**" in line:
+            continue
+        cells = [c.strip().strip("*").strip() for c in line.strip().strip("|").split("|")]
+        if len(cells) >= 6:
+            rows[cells[0]] = cells[1:6]
+            order.append(cells[0])
+    return rows, order
+
+
+def parse_text_rows(text, languages):
+    import re
+    rows, order = {}, []
+    for line in text.splitlines():
+        toks = line.strip()
+        for lang in languages:
+            if toks.startswith(lang + " "):
+                cells = re.findall(r"-?\d+(?: \([+-]\d+\))?", toks[len(lang):])
+                rows[lang] = cells
+                order.append(lang)
+    # the footer row holds the totals: a row of five figures that does not start with a language name
+    for line in text.splitlines():
+        toks = line.strip()
+        if toks and not any(toks.startswith(l + " ") for l in languages) and re.fullmatch(r"(?:\s*-?\d+(?: \([+-]\d+\))?){5}\s*", toks):
+            rows["Totals"] = re.findall(r"-?\d+(?: \([+-]\d+\))?", toks)
+    return rows, order
+
+
+def check_c18(cur_files, prev_files, full, with_repo):
+    from codelimit.common.report.Report import Report
+    from codelimit.common.GithubRepository import GithubRepository
+    from codelimit.common.report import format_text, format_markdown
+    fails = []
+    rep = Report(build_codebase(cur_files), GithubRepository("o", "n", "b") if with_repo else None)
+    prev = Report(build_codebase(prev_files)) if prev_files is not None else None
+    ct, pt = totals_of(cur_files), (totals_of(prev_files) if prev_files is not None else None)
+    langs = sorted(ct, key=lambda l: -ct[l][2])
+    try:
+        md = render(format_markdown.print_totals, rep, prev)
+        tx = render(format_text.print_totals, rep, prev)
+    except Exception as e:  # noqa
+        return [("exception", f"print_totals: {type(e).__name__}: {e}")]
+    for fmt, (rows, order) in (("markdown", parse_md_rows(md)), ("text", parse_text_rows(tx, list(ct)))):
+        shown = [l for l in order if l in ct]
+        locs = [ct[l][2] for l in shown]
+        if sorted(shown) != sorted(ct) or len(shown) != len(ct):
+            fails.append((f"{fmt}:languages", f"rows for {shown}, expected one per language {sorted(ct)}"))
+            continue
+        if locs != sorted(locs, reverse=True):
+            fails.append((f"{fmt}:order", f"languages not ordered by lines of code: {list(zip(shown, locs))}"))
+        for l in ct:
+            both = pt is not None and l in pt
+            if pt is None:
+                want = [str(x) for x in ct[l]]
+            elif both:
+                want = [cell(c, p) for c, p in zip(ct[l], pt[l])]
+            else:
+                want = None     # a language that is new in this report: the statement does not fix its annotation
+            if want is not None and rows[l] != want:
+                fails.append((f"{fmt}:language-row", f"{l}: shown {rows[l]}, expected {want} (current {ct[l]}, previous {pt[l] if both else None})"))
+            if want is None and [c.split(" ")[0] for c in rows[l]] != [str(x) for x in ct[l]]:
+                fails.append((f"{fmt}:language-row", f"{l}: figures {rows[l]} differ from the stored {ct[l]}"))
+        if len(ct) > 1:
+            tot = [sum(ct[l][k] for l in ct) for k in range(5)]
+            ptot = [sum(pt[l][k] for l in pt) for k in range(5)] if pt is not None else [None] * 5
+            want = [cell(c, p) for c, p in zip(tot, ptot)]
+            if rows.get("Totals") != want:
+                fails.append((f"{fmt}:totals-row", f"shown {rows.get('Totals')}, expected {want} (current {tot}, previous {ptot})"))
+    # findings
+    units = sorted([(m.value, p, m.unit_name) for p, _l, ms in cur_files for m in ms if m.value > 30], key=lambda u: -u[0])
+    try:
+        ftx = render(format_text.print_findings, rep, full)
+        fmd = render(format_markdown.print_findings, rep, full=full, _console_first=False)
+    except Exception as e:  # noqa
+        return fails + [("exception", f"print_findings: {type(e).__name__}: {e}")]
+    import re
+    shown_n = len(units) if full or len(units) <= 10 else 10
+    want_lengths = [u[0] for u in units[:shown_n]]
+    md_lengths = [int(c[1 if with_repo else 3].strip()) for c in
+                  ([x.strip() for x in line.strip().strip("|").split("|")] for line in fmd.splitlines()
+                   if line.startswith("|") and "---" not in line and "**" not in line)]
+    if md_lengths != want_lengths:
+        fails.append(("markdown:findings", f"lengths listed {md_lengths}, expected {want_lengths} (full={full})"))
+    tx_lengths = [int(x) for x in re.findall(r":\d+:\d+: (\d+) ", ftx)]
+    if tx_lengths != want_lengths:
+        fails.append(("text:findings", f"lengths listed {tx_lengths}, expected {want_lengths} (full={full})"))
+    more = len(units) - shown_n
+    for fmt, out in (("markdown", fmd), ("text", ftx)):
+        m = re.search(r"(\d+) more rows", out)
+        if more > 0 and (not m or int(m.group(1)) != more):
+            fails.append((f"{fmt}:more-rows", f"{m.group(0) if m else None!r}, expected '{more} more rows' ({len(units)} findings, full={full})"))
+        if more <= 0 and m:
+            fails.append((f"{fmt}:more-rows", f"claims {m.group(0)!r} although every finding is listed ({len(units)} findings, full={full})"))
+    return fails
+
+
+def c18_cases(rnd, tier):
+    def files_for(spec):
+        out = []
+        for lang, nfiles, lens in spec:
+            for i in range(nfiles):
+                from codelimit.common.Measurement import Measurement
+                from codelimit.common.Location import Location
+                ms, line = [], 1
+                for j, v in enumerate(lens if i == 0 else lens[:1]):
+                    ms.append(Measurement(f"f{j}", Location(line, 1), Location(line + v, 2), v))
+                    line += v + 1
+                out.append((f"{lang.lower()}/m{i}.x", lang, ms))
+        return out
+    L = ["Python", "JavaScript", "C", "Java"]
+    shapes = [
+        ([("Python", 1, [31])], None), ([("Python", 2, [31, 61, 10])], [("Python", 2, [31, 61, 10])]),
+        ([("Python", 2, [31, 61])], [("Python", 2, [10, 12])]),                  # 0 -> n hard / unmaintainable
+        ([("Python", 2, [10, 12])], [("Python", 2, [31, 61])]),                  # n -> 0
+        ([("Python", 1, [40]), ("C", 1, [70])], [("Python", 1, [40]), ("C", 1, [70]), ("Java", 1, [35, 65])]),   # language only in previous
+        ([("Python", 1, [40]), ("C", 1, [70]), ("Java", 1, [35])], [("Python", 1, [40]), ("C", 1, [70])]),       # language only in current
+        ([("Python", 1, [40]), ("C", 2, [70, 5])], [("Python", 2, [40]), ("C", 1, [70, 5])]),                       # totals equal, rows differ
+        ([("Python", 3, [31] * 12)], [("Python", 3, [31] * 12)]),                # more than ten findings
+        ([("Python", 1, [31] * 10)], None), ([("Python", 1, [31] * 11)], None),
+        ([("Python", 1, [5]), ("C", 1, [500])], None),
+    ]
+    for cur, prev in shapes:
+        yield files_for(cur), (files_for(prev) if prev is not None else None)
+    for _ in range(40 if tier == "quick" else 600):
+        def spec():
+            return [(l, rnd.randint(1, 3), [rnd.choice([1, 15, 16, 30, 31, 60, 61, 100]) for _ in range(rnd.randint(0, 5))])
+                    for l in rnd.sample(L, rnd.randint(1, 4))]
+        cur = spec()
+        r = rnd.random()
+        prev = None if r < 0.2 else (cur if r < 0.3 else spec())
+        yield files_for(cur), (files_for(prev) if prev is not None else None)
+
+
 def main():
     if sys.argv[1] == "--replay":
         rp = json.load(open(sys.argv[2]))
@@ -216,7 +379,10 @@ def main():
         from codelimit.common.Measurement import Measurement
         from codelimit.common.Location import Location
         files = [(p, l, [Measurement(n, Location(a, b), Location(c2, d), v) for n, a, b, c2, d, v in ms]) for p, l, ms in c["files"]]
-        if rp["obligation"].startswith("C07"):
+        if rp["obligation"].startswith("C18"):
+            pf = None if c.get("previous") is None else [(p, l, [Measurement(n, Location(a, b), Location(c2, d), v) for n, a, b, c2, d, v in ms]) for p, l, ms in c["previous"]]
+            fs = check_c18(files, pf, c["full"], c["repo"])
+        elif rp["obligation"].startswith("C07"):
             fs = check_c07(files)
         else:
             fs = check_c08(files, c["root"], c["repo"], c["version"])
@@ -246,6 +412,18 @@ def main():
                 if len(fails) > 40:
                     break
             samples = [{"paths": paths}]
+        elif prop == "C18":
+            for cur, prev in c18_cases(rnd, tier):
+                for full in (False, True):
+                    for with_repo in (False, True):
+                        evals += 1
+                        distinct.add(json.dumps([ser(cur), ser(prev) if prev is not None else None], default=str))
+                        for kind, what in check_c18(cur, prev, full, with_repo)[:3]:
+                            fails.append({"name": f"C18:{kind}", "what": what, "tags": [],
+                                          "case": {"files": ser(cur), "previous": ser(prev) if prev is not None else None, "full": full, "repo": with_repo}})
+                if len(fails) > 40:
+                    break
+            samples = [{"note": "current/previous reports rendered by the real print_totals / print_findings of both formats"}]
         else:
             pools = AWKWARD + ["plain"]
             cases = []
